@@ -409,6 +409,12 @@ func runCDoc(args []string) {
 	if fl.str("probes", "") != "" {
 		// fixed inputs for defects recorded in known_findings.json: the check reports them as
 		// KNOWN-FINDING by their probe id (and as a violation again if they ever change shape)
+		// (programmatic clause of C08) a key holding DEL: JSON encodes it raw, the library's JSON decoder (yaml.v3) refuses it
+		if fl.str("probes", "") == "C08" { // (the programmatic clause belongs to C08 only)
+			pe := progEvent(orderedJSON{{"a\x7fb", 1}, {"z", "tail"}}, 0)
+			pe["probe"] = "F21-del-key-json-round-trip"
+			emit(pe)
+		}
 		for _, pr := range docProbes {
 			a, err := avFromJSON([]byte(pr[1]))
 			if err != nil {
@@ -462,6 +468,7 @@ var docProbes = [][2]string{
 	{"F09-null-label-with-name", `{"steps":[{"command":"c","label":null,"name":"n"}]}`},
 	{"F09-empty-key-with-id", `{"steps":[{"command":"c","key":"","id":"i"}]}`},
 	{"F09-empty-id-with-identifier", `{"steps":[{"command":"c","id":"","identifier":"x"}]}`},
+	{"F20-extra-key-inside-signature", `{"steps":[{"command":"c","signature":{"algorithm":"a","signed_fields":["command"],"value":"v","note":{"k":1}}}]}`},
 	{"F19-empty-skip-string", `{"steps":[{"command":"c","matrix":{"setup":{"os":["a"]},"adjustments":[{"with":{"os":"b"},"skip":""}]}}]}`},
 	{"F16-null-matrix-dimension", `{"steps":[{"command":"c","matrix":{"setup":{"os":null,"arch":["a"]}}}]}`},
 }
